@@ -28,11 +28,12 @@ pub fn try_get_amount_delta_a(
     let (sqrt_price_lower, sqrt_price_upper) =
         order_prices(sqrt_price_1.into(), sqrt_price_2.into());
     let sqrt_price_diff = sqrt_price_upper - sqrt_price_lower;
-    let numerator: U256 = <U256>::from(liquidity)
-        .checked_mul(sqrt_price_diff.into())
-        .ok_or(ARITHMETIC_OVERFLOW)?
-        .checked_shl(64)
-        .ok_or(ARITHMETIC_OVERFLOW)?;
+    let numerator: U256 = checked_shl_64(
+        <U256>::from(liquidity)
+            .checked_mul(sqrt_price_diff.into())
+            .ok_or(ARITHMETIC_OVERFLOW)?,
+    )
+    .ok_or(ARITHMETIC_OVERFLOW)?;
 
     let denominator: U256 = <U256>::from(sqrt_price_lower)
         .checked_mul(sqrt_price_upper.into())
@@ -109,11 +110,12 @@ pub fn try_get_next_sqrt_price_from_a(
     let p = <U256>::from(current_sqrt_price)
         .checked_mul(amount.into())
         .ok_or(ARITHMETIC_OVERFLOW)?;
-    let numerator = <U256>::from(current_liquidity)
-        .checked_mul(current_sqrt_price.into())
-        .ok_or(ARITHMETIC_OVERFLOW)?
-        .checked_shl(64)
-        .ok_or(ARITHMETIC_OVERFLOW)?;
+    let numerator = checked_shl_64(
+        <U256>::from(current_liquidity)
+            .checked_mul(current_sqrt_price.into())
+            .ok_or(ARITHMETIC_OVERFLOW)?,
+    )
+    .ok_or(ARITHMETIC_OVERFLOW)?;
 
     let current_liquidity_shifted = <U256>::from(current_liquidity)
         .checked_shl(64)
@@ -365,6 +367,16 @@ fn try_mul_div(
     };
 
     result.try_into().map_err(|_| AMOUNT_EXCEEDS_MAX_U64)
+}
+
+/// Shift left by 64 bits, returning `None` if significant bits would be shifted out.
+/// (`U256::checked_shl` only validates the shift amount and silently drops the high bits.)
+pub(crate) fn checked_shl_64(value: U256) -> Option<U256> {
+    if value.leading_zeros() < 64 {
+        None
+    } else {
+        Some(value << 64)
+    }
 }
 
 fn order_prices(a: u128, b: u128) -> (u128, u128) {
